@@ -51,7 +51,7 @@ type hResult struct {
 	events []string
 	hung   bool
 	stream string
-	clash  bool // an address the scenario believed free was taken by someone else: not a result
+	clash  bool // the machine interfered (an address believed free was taken; a drain without requests timed out): run again
 }
 
 // freeAddr hands out loopback addresses below the kernel's ephemeral range (32768-60999): a port found by
@@ -84,10 +84,14 @@ func freeAddr() string {
 type clashHandler struct {
 	busyNow *atomic.Bool
 	clash   *atomic.Bool
+	noReqs  bool // the scenario has no in-flight requests: a drain can only time out because of the machine
 }
 
 func (h clashHandler) Enabled(context.Context, slog.Level) bool { return true }
 func (h clashHandler) Handle(_ context.Context, r slog.Record) error {
+	if h.noReqs && (r.Message == "Failed to stop server during reload" || strings.HasPrefix(r.Message, "Shutdown timeout reached")) {
+		h.clash.Store(true)
+	}
 	if h.busyNow.Load() {
 		return nil
 	}
@@ -131,6 +135,12 @@ func runHTTPScenario(sc HScenario) hResult {
 	var occMu sync.Mutex
 	occupied := map[int]bool{}
 	var busyNow, envClash atomic.Bool
+	noReqs := true
+	for _, op := range sc.Ops {
+		if strings.HasPrefix(op.Kind, "req:") {
+			noReqs = false
+		}
+	}
 	mkConfig := func(ci int) (*httpserver.Config, error) {
 		c := sc.Configs[ci]
 		var routes httpserver.Routes
@@ -191,7 +201,7 @@ func runHTTPScenario(sc HScenario) hResult {
 		must(err)
 		return cfg, nil
 	}
-	runner, err := httpserver.NewRunner(httpserver.WithConfigCallback(cb), httpserver.WithLogHandler(clashHandler{&busyNow, &envClash}))
+	runner, err := httpserver.NewRunner(httpserver.WithConfigCallback(cb), httpserver.WithLogHandler(clashHandler{&busyNow, &envClash, noReqs}))
 	if err != nil {
 		return hResult{events: []string{"NEWERR"}}
 	}
